@@ -122,6 +122,18 @@ impl Expression {
   pub fn type_is_str(&self) -> bool {
     matches!(self, Self::StringName(_) | Self::Variable(_, Type::Id(TypeNameId::STR)))
   }
+
+  /// Operands that are references at run time (objects, or i31 tags printed as numbers). The
+  /// WebAssembly backend compares them with `ref.eq`.
+  fn type_is_reference(&self) -> bool {
+    match self {
+      Self::Int31Literal(_) => true,
+      Self::Variable(_, t) => {
+        matches!(t, Type::Int31 | Type::AnyPointer | Type::Id(_) | Type::Fn(_))
+      }
+      Self::StringName(_) | Self::Int32Literal(_) | Self::FnName(_, _) => false,
+    }
+  }
 }
 
 /// Words that cannot be used as a binding name in the emitted TypeScript / JavaScript (samlang
@@ -301,6 +313,11 @@ impl Statement {
           | BinaryOperator::NE => {
             let is_str_cmp = matches!(operator, BinaryOperator::EQ | BinaryOperator::NE)
               && (e1.type_is_str() || e2.type_is_str());
+            // A reference may be an object (an array in JS) while the other side is an i31 tag
+            // (a number): loose equality would coerce the array (`[1] == 1` is true), so identity
+            // comparisons of references use strict equality, like `ref.eq` in WebAssembly.
+            let is_ref_cmp = matches!(operator, BinaryOperator::EQ | BinaryOperator::NE)
+              && (e1.type_is_reference() || e2.type_is_reference());
             // Necessary to make TS happy
             collector.push_str("Number(");
             if is_str_cmp {
@@ -314,6 +331,9 @@ impl Statement {
               e1.pretty_print(collector, heap, symbol_table, str_table);
               collector.push(' ');
               collector.push_str(operator.as_str());
+              if is_ref_cmp {
+                collector.push('=');
+              }
               collector.push(' ');
               e2.pretty_print(collector, heap, symbol_table, str_table);
             }
